@@ -128,6 +128,9 @@ type ACL struct {
 	UserIDs  map[string]string         // per address: user id carried in pb.Address
 	Rights   map[string]bool
 	Calls    int
+	// Force, when set, overrides every answer (fault injection for C14):
+	// status | empty | garbled | noaddr | emptyaddr | shortaddr | badbatch
+	Force string
 }
 
 func NewACL() *ACL {
@@ -163,6 +166,36 @@ func (a *ACL) DefaultResponse(keysB58 []string, n uint32) *fpb.AclResponse {
 func (a *ACL) invokeOne(args []string) pb.Response {
 	if len(args) == 0 {
 		return shim.Error("no fn")
+	}
+	switch a.Force {
+	case "status":
+		return shim.Error("acl says no")
+	case "empty":
+		return shim.Success(nil)
+	case "garbled":
+		return shim.Success([]byte{0xff, 0xff, 0xff, 0x01, 0x02})
+	case "badbatch":
+		if args[0] == "getAccountsInfo" {
+			return shim.Success([]byte("[{\"status\":200,\"payload\":\"!!\"},null,7]"))
+		}
+	case "noaddr", "emptyaddr", "shortaddr":
+		if args[0] == "checkKeys" && len(args) >= 2 {
+			r := a.DefaultResponse(strings.Split(args[1], "/"), 0)
+			switch a.Force {
+			case "noaddr":
+				r.Address = nil
+			case "emptyaddr":
+				r.Address.Address.Address = nil
+			case "shortaddr":
+				r.Address.Address.Address = []byte{7}
+			}
+			data, _ := proto.Marshal(r)
+			return shim.Success(data)
+		}
+		if args[0] == "checkAddress" {
+			data, _ := proto.Marshal(&fpb.Address{Address: []byte{7}})
+			return shim.Success(data)
+		}
 	}
 	switch args[0] {
 	case "checkKeys":
